@@ -27,11 +27,16 @@ SReply == {k \in DOMAIN fwdTab : rxq[k] # << >> /\ k \notin sockErr}
 WReplyWhileLeftParked == lpc = "write" /\ SReply # {} /\ ReadReply(CHOOSE k \in SReply : TRUE)
 WReplyDroppedByClient == stalled /\ SReply # {} /\ ReadReply(CHOOSE k \in SReply : TRUE)
 WDnsDoneThoughDropped == stalled /\ rpc = "regin" /\ RegisterIncoming /\ Rev(rcur.lab) \in DOMAIN pipeTab /\ pipeTab[Rev(rcur.lab)].pend = 1
+WEmptyReplyDelivered == SReply # {} /\ Head(rxq[CHOOSE k \in SReply : TRUE]).len = 0 /\ ReadReply(CHOOSE k \in SReply : TRUE)
+WEmptyAnswerCompletesDns == rpc = "regin" /\ rcur.len = 0 /\ Rev(rcur.lab) \in DOMAIN pipeTab /\ pipeTab[Rev(rcur.lab)].pend = 1 /\ RegisterIncoming
+WEmptyReplyKeepsFlowAlive == rpc = "regin" /\ rcur.len = 0 /\ Rev(rcur.lab) \in DOMAIN pipeTab /\ pipeTab[Rev(rcur.lab)].la < now /\ RegisterIncoming
+WEmptyDatagramSent == SinkWriteOk /\ lcur.len = 0
 WLastSurvivesTick == Tick /\ DOMAIN pipeTab # {} /\ ExpiredSet = {} /\ \E k \in DOMAIN pipeTab : pipeTab[k].la + T = now
 
 Witnesses == WFreshAfterExpiry \/ WExpireWhileMirrorLives \/ WExpireSeveral \/ WDnsReleaseOthersLive
              \/ WSendErrOthersLive \/ WErrReadOthersLive \/ WConnErrOthersLive \/ WSentAfterError
-             \/ WReplyWhileLeftParked \/ WLastSurvivesTick \/ WReplyDroppedByClient \/ WDnsDoneThoughDropped
+             \/ WReplyWhileLeftParked \/ WLastSurvivesTick \/ WEmptyReplyDelivered \/ WEmptyAnswerCompletesDns
+             \/ WEmptyReplyKeepsFlowAlive \/ WEmptyDatagramSent \/ WReplyDroppedByClient \/ WDnsDoneThoughDropped
 
 MCNext == Next \/ Witnesses
 MCSpec == Init /\ [][MCNext]_vars
